@@ -648,4 +648,13 @@ theorem history_agree (env : Env) (hwf : wfEnv env = true) (fuel : Nat) : ∀ (h
         rw [← hag.2.2.2.1] at hi; exact hi
       exact ih _ _ hq' hn' (hag.trans ha) hsv hi1 hart'
 
+theorem seqR_head (a : R) (k : G → R) (x : Obs) (h : a.obs.head? = some x) :
+    (seqR a k).obs.head? = some x := by
+  unfold seqR
+  split
+  · exact h
+  · cases ha : a.obs with
+    | nil => simp [ha] at h
+    | cons y ys => simp [ha] at h ⊢; exact h
+
 end CssVerif.Globals
